@@ -98,7 +98,12 @@ def r2_paths(text, log):
 
 
 def r6_rangefrom(text, log):
-    """for X in 0usize.. {  ->  for X in 0usize..usize::MAX {  (+ range_from_has_no_end() after the loop)"""
+    """for X in 0usize.. { B }   =>
+         let ghost mut vf_done = false;
+         for X in 0usize..usize::MAX { B' }          B' = B with `break` -> `{ proof { vf_done = true; } break }`
+         proof { if !vf_done { range_from_has_no_end(); } }
+    i.e. the only assumption is that the loop is never left by exhausting 2^64-1 iterations (where the
+    original `0usize..` would overflow); leaving it by `break` is unaffected."""
     out = text
     while True:
         mask = code_mask(out)
@@ -108,9 +113,19 @@ def r6_rangefrom(text, log):
         m = ms[0]
         ob = m.end() - 1
         cb = match_close(out, mask, ob)
+        body = out[ob:cb + 1]
+        bmask = code_mask(body)
+        if find_code(body, bmask, r'\b(for|while|loop)\b', regex=True):
+            raise ExtractError('R6: nested loop inside a `for .. in 0usize..` body')
+        brs = find_code(body, bmask, r'\bbreak\b', regex=True)
+        for bm in reversed(brs):
+            body = body[:bm.start()] + '{ proof { vf_done = true; } break }' + body[bm.end():]
         head = out[m.start():ob].replace('0usize..', '0usize..usize::MAX')
-        out = out[:m.start()] + head + out[ob:cb + 1] + '\n        range_from_has_no_end();' + out[cb + 1:]
-        log.append(('R6', 'for %s in 0usize.. -> 0usize..usize::MAX + range_from_has_no_end()' % m.group(1)))
+        ls = out.rfind('\n', 0, m.start()) + 1
+        indent = out[ls:m.start()]
+        out = (out[:ls] + indent + 'let ghost mut vf_done = false;\n' + indent + head + body
+               + '\n' + indent + 'proof { if !vf_done { range_from_has_no_end(); } }' + out[cb + 1:])
+        log.append(('R6', 'for %s in 0usize.. -> 0usize..usize::MAX, ghost exit flag at %d break(s), range_from_has_no_end() on exhaustion' % (m.group(1), len(brs))))
     return out
 
 
@@ -288,6 +303,22 @@ class Item:
         """Verifier attribute in front of a fn (ghost only), e.g. #[verifier::loop_isolation(false)]."""
         s, (st, sig_end, bo, bc) = self._fn_span(fname)
         self._ins(st, text.rstrip() + '\n', prio=5)
+        return self
+
+    def before_loop(self, n, ghost, fname=None):
+        """Ghost text immediately before the n-th loop (e.g. ghost snapshots of the loop's entry state)."""
+        s, loops = self._loops(fname)
+        if len(loops) < n:
+            raise ExtractError('%s: loop #%d not found (have %d)' % (self.name, n, len(loops)))
+        self._ins(loops[n - 1][0], ghost.rstrip() + '\n', prio=1)
+        return self
+
+    def loop_body_start(self, n, ghost, fname=None):
+        """Ghost text right after the opening brace of the n-th loop's body."""
+        s, loops = self._loops(fname)
+        if len(loops) < n:
+            raise ExtractError('%s: loop #%d not found (have %d)' % (self.name, n, len(loops)))
+        self._ins(loops[n - 1][1] + 1, '\n' + ghost.rstrip() + '\n', prio=-2)
         return self
 
     def body_start(self, ghost, fname=None):
